@@ -1,2 +1,53 @@
-(** Theorems for C10: filled in below as the proofs land. *)
-From JL Require Import Base.Json.
+(** * C10: arithmetic yields the exact IEEE-754 double or an error, never a wrong number.
+    Statements only; proofs are in Proofs/Arith.v.  The double is Coq's own executable IEEE-754
+    binary64 (Floats.SpecFloat at precision 53, emax 1024, round to nearest even).
+    Hypotheses of the _partial theorems: the scanner lemmas (Proofs/Scan.v). *)
+From Coq Require Import List Bool ZArith.
+From JL Require Import Base.Json Base.Lits Base.F64 Base.Dec2Flt Base.Monad Model.JsOp Model.Ops Spec.Specs Spec.OpSpecs.
+From JL Require Import Proofs.Arith Proofs.OpsCorrect.
+From Coq Require Import String NArith ZArith.
+Local Open Scope string_scope.
+Import ListNotations.
+
+(** the narrowing of a double to a JSON number, for every double: the canonical spelling
+    (integer exactly when integral and within 64 bits, never clamped), an error iff not finite *)
+Theorem C10_narrowing : forall f, to_number_value f = canonical_num f.
+Proof. exact to_number_value_spec. Qed.
+Print Assumptions C10_narrowing.
+
+Theorem C10_operators_partial :
+  (forall s, str_to_number s = es_str_to_number s) ->
+  (forall s, parse_float_string s = es_parse_float_str s) ->
+  (forall vs, op_add vs = arith_spec OAdd vs) /\ (forall vs, op_mul vs = arith_spec OMul vs) /\
+  (forall vs, op_max vs = arith_spec OMax vs) /\ (forall vs, op_min vs = arith_spec OMin vs) /\
+  (forall a b, op_div [a; b] = arith_spec ODiv [a; b]) /\ (forall a b, op_mod [a; b] = arith_spec OMod [a; b]) /\
+  (forall vs, (List.length vs = 1 \/ List.length vs = 2)%nat -> op_minus vs = arith_spec OSub vs).
+Proof.
+  intros H1 H2. repeat split; intros.
+  - apply op_add_spec, H2. - apply op_mul_spec, H2. - apply op_max_spec, H1. - apply op_min_spec, H1.
+  - apply op_div_spec, H1. - apply op_mod_spec, H1. - apply op_minus_spec; assumption.
+Qed.
+Print Assumptions C10_operators_partial.
+
+(** a result is a number exactly when every operand is numeric and the double is finite *)
+Theorem C10_error_iff :
+  forall o vs,
+    arith_spec o vs = match arith_value o vs with
+                      | Some f => if is_finite f then canonical_num f else Err UnexpectedError
+                      | None => Err InvalidArgument
+                      end.
+Proof.
+  intros o vs. unfold arith_spec. destruct (arith_value o vs) as [f|]; [|reflexivity].
+  unfold canonical_num. destruct (is_finite f); reflexivity.
+Qed.
+Print Assumptions C10_error_iff.
+
+Example C10_nonvacuous :
+  arith_spec OAdd [Num (Float (dec_to_f64 false 1 19)); Num (PosInt 0%N)] = Ok (Num (PosInt 10000000000000000000%N)) /\
+  arith_spec OMul [Num (Float (dec_to_f64 false 1 10)); Num (Float (dec_to_f64 false 1 10))]
+    = Ok (Num (Float (dec_to_f64 false 1 20))) /\
+  arith_spec OAdd [Str (lit "12px"); Arr [Num (PosInt 3%N)]] = Ok (Num (PosInt 15%N)) /\
+  arith_spec OSub [Str (lit "")] = Ok (Num (PosInt 0%N)) /\
+  arith_spec ODiv [Num (PosInt 1%N); Num (PosInt 0%N)] = Err UnexpectedError /\
+  arith_spec OMax [Str (lit "nan"); Num (PosInt 1%N)] = Err InvalidArgument.
+Proof. vm_compute. repeat split. Qed.
